@@ -22,6 +22,7 @@ let () =
     let ids = Hashtbl.create 16 in
     let next_id = ref 0 in
     let events = List.filter (fun e -> e <> "") (split_on ',' f.(3)) in
+    let nus = Array.of_list (List.map (fun e -> List.length e.e_usages) entries) in
     let evs = List.map (fun e ->
       let p = Array.of_list (split_on ':' e) in
       match p.(0) with
@@ -30,12 +31,15 @@ let () =
         Recv (sym p.(1), osym p.(2), osym p.(3),
               { r_cseq = n_of_decimal p.(4); r_id = n_of_int !next_id; r_ack = (p.(6) = "1") })
       | "D" -> DropUsage (key_of (int_of_string p.(1)), n_of_int (int_of_string p.(1) * 10 + int_of_string p.(2)))
+      | "K" -> DropUsage (key_of 0, n_of_int 9999)      (* register_usage for a dialog that does not exist: nothing happens *)
+      | "U" -> let d = int_of_string p.(1) in let u = nus.(d) in nus.(d) <- u + 1; AddUsage (key_of d, n_of_int (d * 10 + u))
       | _ -> failwith "bad event") events in
     let (final, outs) = layer_run entries evs in
     let dialog_index k =
       let rec go i = function [] -> -1 | e :: r -> if dkey_eqb e.e_key k then i else go (i+1) r in go 0 entries in
     let show ev o = match ev, o with
       | DropUsage _, _ -> "-"
+      | AddUsage _, _ -> "-"
       | _, NotIntercepted -> "N"
       | _, Held -> "H"
       | _, Delivered (k, us, reqs) ->
